@@ -4,6 +4,9 @@ import Afkak.Monitor.C07
 import AfkakProofs.Client.Route
 import AfkakProofs.Client.Assemble
 import AfkakProofs.Client.Hosts
+import AfkakProofs.Client.A_Unavail5
+import AfkakProofs.Client.A_Coroutine
+import AfkakProofs.Client.A_Follow
 import AfkakProps.Open.C07
 /-!
 # C07 — requests reach the responsible broker; results return in payload order
@@ -195,6 +198,120 @@ example :
        ([3], BrokerResult.fail "timedOut"), ([1], BrokerResult.ok [⟨("t", 0), 10, 6⟩])]
       = ([⟨("t", 1), 11, 0⟩, ⟨("t", 0), 10, 6⟩, ⟨("t", 2), 12, 0⟩], [(3, "timedOut")]) := by decide
 
+/-- **The coroutine computes what the kernels compute** (every run of the client model, any event list, no hypothesis):
+    (1) every payload request `_send_broker_aware_request` hands to a broker client carries exactly one group of
+    `groupByNode routed` for a `routed` that resolves EVERY payload index `0..n-1` of its send in order - so the
+    kernel theorems `C07_one_request_per_broker` / `C07_requests_partition_payloads` apply to the requests the
+    coroutine issues (one request per broker, the requests partition the payload list, payload order inside each);
+    (2) every `FailedPayloadsError` and (3) every response list delivered to a caller is `assemble keys results` for
+    per-request results whose payload-index lists partition the payload list - the hypotheses `hnd`/`hcover` of
+    `C07_accounting`, so `C07_order`, `C07_failed_payloads` and `C07_accounting` apply to what the coroutine returns.
+    Proof: reachable-state invariant `SendsOk` (each send holds `routed = [(leader, 0), (leader, 1), …]` while
+    resolving and `slots = groupByNode routed` once in flight) plus a stack invariant of the interpreter
+    (AfkakProofs/Client/A_Coroutine.lean). -/
+theorem C07_coroutine_requests_and_results (cfg : Cfg) (evs : List (Env × Ev)) :
+    (∀ k b e idxs ks, TItem.ob (.mk k b e (.payloads idxs ks)) ∈ traceOf cfg {} evs →
+      ∃ (keys : List TP) (routed : List (Int × Nat)) (n : Int), routed.map (·.2) = List.range keys.length ∧
+        (n, idxs) ∈ groupByNode routed ∧ ks = idxs.filterMap (fun i => keys[i]?)) ∧
+    (∀ o tags failed, TItem.ob (.result o (.failedPayloads tags failed)) ∈ traceOf cfg {} evs →
+      ∃ (keys : List TP) (results : List (List Nat × BrokerResult Kind)),
+        ((results.flatMap (·.1)).Nodup ∧ ∀ i, i < keys.length → i ∈ results.flatMap (·.1)) ∧
+        failed = (assemble keys results).2 ∧ tags = (assemble keys results).1.map (·.tag)) ∧
+    (∀ o tags, TItem.ob (.result o (.responses tags)) ∈ traceOf cfg {} evs →
+      ∃ (keys : List TP) (results : List (List Nat × BrokerResult Kind)),
+        ((results.flatMap (·.1)).Nodup ∧ ∀ i, i < keys.length → i ∈ results.flatMap (·.1)) ∧
+        (assemble keys results).2 = [] ∧ tags = (assemble keys results).1.map (·.tag)) := by
+  have h := trace_obOk cfg evs {} Ids.init SendsOk.init
+  refine ⟨?_, ?_, ?_⟩
+  · intro k b e idxs ks hm
+    exact (h _ hm).1 k b e idxs ks rfl
+  · intro o tags failed hm
+    exact (h _ hm).2 o _ rfl
+  · intro o tags hm
+    exact (h _ hm).2 o _ rfl
+
+/-! Non-vacuity of `C07_coroutine_requests_and_results`: two brokers lead three partitions; one send of three payloads
+    issues two payload requests ([0, 2] to broker 1, [1] to broker 2); broker 2's request times out: the caller gets
+    a `FailedPayloadsError` carrying broker 1's two responses and payload 1. -/
+example :
+    let cfg : Cfg := { timeout := 10, disconnectOnTimeout := false, bootHosts := [("boot", 9092)] }
+    let evs : List (Env × Ev) :=
+      [({ shuffles := [[], [0]] }, .load 0 []), ({}, .bootOk 0),
+       ({}, .bootReply 0 (.metadata [⟨1, "h1", 9092⟩, ⟨2, "h2", 9092⟩] [⟨"t", 0, [⟨0, 0, 1⟩, ⟨0, 1, 2⟩, ⟨0, 2, 1⟩]⟩])),
+       ({}, .send 1 [("t", 0), ("t", 1), ("t", 2)] none true true),
+       ({}, .fire 0 (.ok (.items [(("t", 2), 0, 72), (("t", 0), 0, 70)]))), ({}, .advance 10)]
+    (traceOf cfg {} evs).any (fun it => match it with
+      | .ob (.mk _ _ _ (.payloads idxs _)) => idxs == [0, 2] | _ => false) = true ∧
+    (traceOf cfg {} evs).any (fun it => match it with
+      | .ob (.result 1 (.failedPayloads tags failed)) => tags == [70, 72] && failed.map (·.1) == [1] | _ => false) = true := by
+  decide +kernel
+
+/-- **Live broker clients sit at the address the current metadata names for their broker**: in every reachable state
+    of the client model (any event list) every entry of `clients` holds exactly the `BrokerMetadata` that `_brokers`
+    holds for its node id (`_update_brokers` tells every existing broker client; `_get_brokerclient` creates from
+    `_brokers`) - what a broker client has queued goes to the address the metadata names NOW.  This is the rule the
+    C07 monitor evaluates on every dump of the real client (`newAddr` in `Afkak.Monitor.C07.stepItem`). -/
+theorem C07_clients_follow_brokers (cfg : Cfg) (evs : List (Env × Ev)) :
+    let st := evs.foldl (fun s e => (step cfg s e.1 e.2).1) ({} : St)
+    st.cache.clients.all (fun (cl : Int × Broker) => get? cl.1 st.cache.brokers == some cl.2) = true := by
+  intro st
+  have h := reachable_follows cfg evs {} (fun _ hcl => by cases hcl)
+  apply List.all_eq_true.mpr
+  intro cl hcl
+  have := h cl hcl
+  simp only [beq_iff_eq]
+  exact this
+
+/-- **"Unavailable" only after every bootstrap host was tried** (coroutine level, every event sequence): in a run
+    of the client model without `close()` in which every completion the broker clients deliver for a request is a
+    reply, a Kafka error or a cancellation (`benignFires`: what the real `_KafkaBrokerClient` produces), ANY operation
+    (metadata load, send, `_load_topic_partitions`, …) that fails with `KafkaUnavailableError` does so only after a
+    bootstrap connection attempt has been made to every configured bootstrap host.  No well-formedness, freshness or
+    fuel hypothesis, and cancellations of any operation are allowed (stronger than the open statement in those
+    respects).  Proof: `UInv` (AfkakProofs/Client/A_Unavail*.lean) - a stack invariant of the interpreter with the
+    ghost set of hosts boot-connected so far: bootstrap lists still to be tried cover, together with the ghost set,
+    all hosts; nodes still to be tried are known brokers (the broker table never shrinks); an action that can turn
+    into an "unavailable" result is on the stack only when all hosts were tried. -/
+theorem C07_unaware_unavailable_only_after_all_partial (cfg : Cfg) (evs : List (Env × Ev)) (o : Nat)
+    (hc : noClose evs = true) (hb : benignFires evs = true)
+    (hm : TItem.ob (.result o (.fail .unavailable)) ∈ traceOf cfg {} evs) :
+    ∀ hp ∈ cfg.bootHosts, ∃ j, TItem.ob (.bootConnect j hp.1 hp.2) ∈ traceOf cfg {} evs :=
+  unavailable_only_after_all cfg evs o hc hb hm
+
+/-! Non-vacuity of `C07_unaware_unavailable_only_after_all_partial`: the client knows broker 1; a metadata load is tried
+    on broker 1 (request times out after 10 s), then on both bootstrap hosts, which refuse: `unavailable`. -/
+example :
+    let cfg : Cfg := { timeout := 10, disconnectOnTimeout := false, bootHosts := [("a", 1), ("b", 2)] }
+    let evs : List (Env × Ev) :=
+      [({ shuffles := [[], [0, 1]] }, .load 0 []), ({}, .bootOk 0), ({}, .bootReply 0 (.metadata [⟨1, "h1", 9092⟩] [])),
+       ({ shuffles := [[0]] }, .load 1 []), ({ shuffles := [[1, 0]] }, .advance 10), ({}, .bootFail 1), ({}, .bootFail 2)]
+    noClose evs = true ∧ benignFires evs = true ∧
+    (traceOf cfg {} evs).any (TItem.isUnavResultOf 1) = true ∧
+    (traceOf cfg {} evs).any (TItem.isBootConnectTo ("b", 2)) = true := by
+  decide +kernel
+
+/-- The open statement `C07_unaware_unavailable_only_after_all` is FALSE of the model as stated: the model lets a broker
+    client fail a request with ANY failure kind, and `_send_broker_unaware_request` only swallows `KafkaError`s: a
+    request failing with, say, a connection-lost error ends the broker loop, `_handleMetadataErr` turns the failure
+    into `KafkaUnavailableError`, and the bootstrap hosts are never tried (witness `UnavailWitness`: host b is never
+    connected).  In the code the only way a `_KafkaBrokerClient` fails a request like that is `proto.sendString`
+    raising inside `_sendRequest` (`tReq.d.errback(e)` with the raw exception), which the in-memory network cannot
+    provoke: the statement needs the environment assumption `benignFires` (then it is
+    `C07_unaware_unavailable_only_after_all_partial`); it stays open as stated. -/
+theorem C07_unaware_unavailable_only_after_all_counterexample : ¬ Open.C07_unaware_unavailable_only_after_all := by
+  open UnavailWitness in
+  intro h
+  have hwf : WellFormedRun cfg evs := ⟨by decide +kernel, noBadOp_of_all (by decide +kernel)⟩
+  have hnf : NoFuel cfg {} evs := by
+    simp only [evs, NoFuel, and_true]
+    decide +kernel
+  have hne : ∀ e ∈ evs, (∀ o', e.2 ≠ .close o') ∧ e.2 ≠ .cancel 1 := by
+    intro e he
+    simp only [evs, List.mem_cons, List.not_mem_nil, or_false] at he
+    rcases he with rfl | rfl | rfl | rfl | rfl <;> exact ⟨fun o' hh => (by cases hh), fun hh => (by cases hh)⟩
+  have := h cfg evs 1 hwf hnf hne (mem_unavResult_of_any (by decide +kernel)) ("b", 2) (by decide)
+  exact no_bootConnect_of_all (hp := ("b", 2)) (tr := traceOf cfg {} evs) (by decide +kernel) this
+
 end Afkak.Props.C07
 
 /- OBLIGATIONS
@@ -207,6 +324,10 @@ C07_accounting
 C07_requests_partition_payloads
 C07_connected_first
 C07_normalize_hosts
+C07_unaware_unavailable_only_after_all_partial
+C07_unaware_unavailable_only_after_all_counterexample
+C07_coroutine_requests_and_results
+C07_clients_follow_brokers
 -/
 /- OPEN_STATEMENTS
 C07_model_traces_satisfy_monitor
